@@ -154,6 +154,24 @@ func Directed() [][]string {
 		fmt.Sprintf("adv %d", 300*MS), "src a 5", fmt.Sprintf("adv %d", MS), "adv 30000000000"})
 	out = append(out, []string{"newlink a up", "src a 10", fmt.Sprintf("adv %d", MS), "add up t1 limit_data 0 0 0 1", fmt.Sprintf("adv %d", 300*MS), "src a 5",
 		fmt.Sprintf("adv %d", MS), "adv 30000000000"})
+	// toxicity lowered to 0 (raised to 1) on a live connection: the toxic stops (starts) applying to it
+	out = append(out, []string{"add up t1 latency 400 0 0 1", "newlink a up", "src a 5", fmt.Sprintf("adv %d", 1000*MS), "upd t1 latency 400 0 0 0",
+		fmt.Sprintf("adv %d", 10*MS), "src a 5", fmt.Sprintf("adv %d", 2000*MS), "srceof a", "adv 30000000000"})
+	out = append(out, []string{"add up t1 latency 400 0 0 0", "newlink a up", "src a 5", fmt.Sprintf("adv %d", 1000*MS), "upd t1 latency 400 0 0 1",
+		fmt.Sprintf("adv %d", 10*MS), "src a 5", fmt.Sprintf("adv %d", 2000*MS), "srceof a", "adv 30000000000"})
+	// a latency toxic with another toxic behind it; the other one is removed; later data is still delayed
+	for _, x := range []string{"noop 0 0 0", "slicer 64 0 1000", "latency 50 0 0", "bandwidth 100 0 0"} {
+		out = append(out, []string{"add up t1 latency 400 0 0 1", "add up t2 " + x + " 1", "newlink a up", "src a 5", fmt.Sprintf("adv %d", 1000*MS), "del t2",
+			fmt.Sprintf("adv %d", 100*MS), "src a 5", fmt.Sprintf("adv %d", 100*MS), "src a 5", fmt.Sprintf("adv %d", 2000*MS), "srceof a", "adv 30000000000"})
+	}
+	// a slicer interrupted between two pieces while the stage behind it takes nothing for more than
+	// five seconds: the rest of the packet is still handed on (an update waits, it does not give up)
+	out = append(out, []string{"allowblock", "add up t1 slicer 7000 0 100000 1", "add up t2 bandwidth 1 0 0 1", "newlink a up", "src a 28000", fmt.Sprintf("adv %d", 300*MS),
+		"upd t1 slicer 7000 0 100000 1", fmt.Sprintf("adv %d", 12000*MS), "srceof a", "adv 60000000000", "adv 600000000000"})
+	// a toxic whose stub has closed itself (limit reached) is updated while a slow_close behind it keeps
+	// the link alive, and the sender goes on: the update must not restart anything on the closed stub
+	out = append(out, []string{"add up t1 limit_data 10 0 0 1", "add up t2 slow_close 4000 0 0 1", "newlink a up", "src a 10", fmt.Sprintf("adv %d", 10*MS),
+		"upd t1 limit_data 100000 0 0 1", fmt.Sprintf("adv %d", 10*MS), "src a 10", fmt.Sprintf("adv %d", 100*MS), "src a 10", fmt.Sprintf("adv %d", 5000*MS), "adv 30000000000"})
 	// C14: independence of the per-connection decisions, and their frequency for small toxicities
 	out = append(out, []string{"indep 40"})
 	return out
